@@ -678,6 +678,9 @@ def random_real_config(rnd):
          "mu": [rnd.choice([0.0, rnd.uniform(-3, 3)]) for _ in range(poly + noff)],
          "var": [rnd.uniform(20.0, 120.0) ** 2] + [rnd.uniform(1.0, 9.0) ** 2 for _ in range(noff)]
                 + [(rnd.uniform(0.05, 1.0) / (30.0 ** (i - 1))) ** 2 for i in range(1, poly)]}
+    # a single source without reference epoch (RVData(..., t_ref=False), a documented option: times are then measured from BMJD 0);
+    # kept to trend-free problems - powers of 55000 d are a matter of conditioning, not of conventions
+    c["tref_off"] = bool(noff == 0 and poly == 1 and rnd.random() < 0.3)
     return c
 
 
@@ -700,10 +703,11 @@ def build_real(c, ua):
         tt = Time(T0 + t[idx], format="mjd", scale="tcb")
         y = (np.array(c["y"])[idx] * kms).to(sdu)
         err = (np.sqrt(np.array(c["sig2"])[idx]) * kms).to(U(ua["err_units"][j]))
-        srcs.append(RVData(tt, y, err, t_ref=Time(T0, format="mjd", scale="tcb")) if noff == 0 else RVData(tt, y, err))
+        srcs.append(RVData(tt, y, err, t_ref=(False if c.get("tref_off") else Time(T0, format="mjd", scale="tcb"))) if noff == 0
+                    else RVData(tt, y, err))
     data = srcs[0] if noff == 0 else srcs
-    # with several surveys the reference epoch is the earliest epoch of the merged data
-    tref_shift = 0.0 if noff == 0 else float(np.min(t))
+    # with several surveys the reference epoch is the earliest epoch of the merged data; without reference epoch it is BMJD 0
+    tref_shift = (-T0 if c.get("tref_off") else 0.0) if noff == 0 else float(np.min(t))
     ku = U(ua["kprior"])
     slot_names = ["v0"] + ["dv0_%d" % j for j in range(1, noff + 1)] + ["v%d" % i for i in range(1, poly)]
     tu = U(ua["slope_t"])
